@@ -104,6 +104,25 @@ CHECKS += [
          technique="lifted execution of the real estimator on z3 integers (symbolic counts, exponents, budgets); linear/nonlinear integer validity queries"),
 ]
 
+CHECKS += [
+    dict(property_id="C43", category="proof", engine=E2,
+         text="qp.for_loop / qp.while_loop / qp.cond (capture disabled) are executed by CrossHair with symbolic start/stop/step (-4..4, step != 0), "
+              "carried values, loop bounds and predicates; visited indices, carried results, branch taken and return values are confirmed over ALL "
+              "paths equal to the same loop / if-elif-else in plain Python (incl. the three for_loop signatures, nesting, loop inside cond, the "
+              "index-only-must-not-return rule).",
+         note=E2_NOTE + " Bodies record through Python callbacks (AnnotatedQueue does not record under CrossHair's tracer). Outside: program capture, qp.cond on measurement values (state-level: C21).",
+         technique="CrossHair symbolic execution (z3) of the real control-flow callables against plain Python loops, confirmed over all paths within stated bounds"),
+    dict(property_id="C16", category="proof", engine=E5,
+         text="The real ZSqrtTwo and ZOmega methods run on z3 integers: commutativity, associativity, distributivity, identities, negation, integer "
+              "scalars, conj/adj2 as involutive automorphisms, norm multiplicativity, powers, exact division, to_omega/from_sqrt_pair homomorphisms, "
+              "== semantics, sqrt() (via the exact isqrt specification), ZOmega.normalize are proved as polynomial integer identities for ALL "
+              "coefficient values (no bound, except |coeff|<=6 for normalize). CrossHair: _primality_test == trial division confirmed for 0..300; "
+              "bounded counterexample search for DyadicMatrix +/@ exactness/associativity/distributivity, % congruence, primality up to 12000. "
+              "Thorough: the real tail of _solve_diophantine with factoring subroutines stubbed by arbitrary ring elements.",
+         note=E5_NOTE + "Shims: `int` and `math` in the rings module namespace (int(x) keeps symbols; isqrt by specification). Outside: float code paths for coefficients >= 2^53, ZSqrtTwo.__mod__ neighbour search, SO3Matrix, Pollard/Miller-Rabin loops beyond the bounds.",
+         technique="lifted execution of the real ring classes on z3 integers (NIA identity proofs, unbounded); CrossHair for bounded number-theoretic parts"),
+]
+
 _NOT_BUILT = "claimed in DESIGN.md §4 but its solver-based check is not built yet in this tree"
 NOT_APPLICABLE_REASONS = {
     "C04": "equality/hash: Python hash() of concrete payloads and tolerance-based allclose relations; no exact relation a solver can decide",
